@@ -159,6 +159,8 @@ def choose_failing(ir, desc):
         return {}
     rng = random.Random(desc["seed"] ^ 0xFA17)
     calls = ir.harness_calls()
+    if f.get("among") is not None:
+        calls = [c for c in calls if c in set(f["among"])]
     if f.get("count") is not None:
         chosen = rng.sample(calls, min(len(calls), f["count"]))
     else:
